@@ -70,7 +70,7 @@ PROPS = {
             "oracle_n_by": {"swarm": {"quick": 32, "thorough": 640}}},
     "C12": {"streams": [_HUB_STREAM], "oracles": ["hub", "swarm", "kesw"], "rule": _HUB_RULE + " " + _KESW_RULE, "assumptions": _HUB_ASSUME, "oracle_n": {"quick": 100, "thorough": 2000},
             "oracle_n_by": {"kesw": {"quick": 8, "thorough": 500}, "swarm": {"quick": 32, "thorough": 640}}},
-    "C11": {"streams": [_HUB_STREAM, _FRAG_STREAM, {"name": "ask", "quick": 15000, "thorough": 400000, "thorough_seeds": 2, "stateful": True, "seq_start": "a-new"}], "oracles": ["hub", "swarm", "mbask"], "assumptions": _HUB_ASSUME, "oracle_n": {"quick": 100, "thorough": 2000},
+    "C11": {"streams": [_HUB_STREAM, _FRAG_STREAM, {"name": "ask", "quick": 15000, "thorough": 400000, "thorough_seeds": 2, "stateful": True, "seq_start": "a-new"}], "oracles": ["hub", "swarm", "mbask", "asksteps"], "assumptions": _HUB_ASSUME, "oracle_n": {"quick": 100, "thorough": 2000},
             "oracle_n_by": {"mbask": {"quick": 25, "thorough": 1500}, "swarm": {"quick": 32, "thorough": 640}},
             "rule": _HUB_RULE + " `ask` stream: the real mbapp ask path under the fake clock (bin/corr26) against Model/Asker.lean: asks with response "
                     "buffers of 0..64 bytes and time-outs of 5 ms..40 s to two real responder swarms whose handlers answer, answer long or fail; "
@@ -83,7 +83,7 @@ PROPS = {
                     "every Ask that succeeds must return what the handler produced for that very request, within its deadline."},
     "C14": {"streams": [_HUB_STREAM, {"name": "frag", "quick": 15000, "thorough": 300000, "thorough_seeds": 2, "stateful": True, "seq_start": ("frag-new", "mb-new")}],
             "race_oracles": {"quick": [("swarm", 16), ("hub", 40), ("ke", 12)], "thorough": [("swarm", 96), ("hub", 400), ("ke", 60), ("mux", 300), ("secure", 24)]},
-            "oracles": ["hub", "frag", "mux", "swarm"], "oracle_n_by": {"frag": {"quick": 3000, "thorough": 100000}, "mux": {"quick": 2000, "thorough": 100000}, "swarm": {"quick": 16, "thorough": 320}},
+            "oracles": ["hub", "frag", "mux", "swarm", "asksteps"], "oracle_n_by": {"frag": {"quick": 3000, "thorough": 100000}, "mux": {"quick": 2000, "thorough": 100000}, "swarm": {"quick": 16, "thorough": 320}},
             "rule": _HUB_RULE + " Swarm oracle: a reassembling layer (fragswarm, mbapp) over a network that duplicates every datagram a little later, three receivers whose callbacks hold their message: the memory of a message is never handed to a second callback while its owner runs and its contents stay what they were on entry. Buffer ownership above the hubs: in the frag, ke and ket streams every packet is handed to the layer in a "
                     "buffer that the harness overwrites as soon as the call returns (hx.Lend/Reclaim), as a transport that reuses its receive "
                     "buffers does; a layer that keeps a reference instead of a copy delivers corrupted bytes, which the model does not.", "level": "proof",
